@@ -27,6 +27,7 @@ import sys
 REPO = os.environ.get("VERIF_REPO", "/repo")
 FUNCS = [
     ("mj_fwdConstraint", "src/engine/engine_forward.c"),
+    ("warmstart", "src/engine/engine_forward.c"),
     ("dualFinish", "src/engine/engine_solver.c"),
     ("mj_dualFinish", "src/engine/engine_solver.c"),
     ("mj_constraintUpdate", "src/engine/engine_core_constraint.c"),
